@@ -433,6 +433,20 @@ pub fn run(cfg: &Cfg, rep: &mut Report) {
     let mut ctx = Ctx::new(rep);
     let mut rng = cfg.rng(3);
 
+    // (i) operator x operand-type family and constant operands of union static type (operators evaluated while folding)
+    for (idx, case) in crate::optyping::cases().iter().enumerate() {
+        if cfg.owns(idx as u64) {
+            ctx.parse("operator-typing", &case.decl, false);
+            if let Some(call) = case.calls.first() {
+                ctx.parse("operator-typing", call, false);
+            }
+        }
+    }
+    for (idx, src) in crate::optyping::const_union_programs().iter().enumerate() {
+        if cfg.owns(idx as u64) {
+            ctx.parse("operator-typing-const-union", src, false);
+        }
+    }
     // (d) checklist + imports (every shard: cheap)
     if cfg.shard == 0 {
         let mut accepted = 0;
